@@ -35,6 +35,8 @@ var trustedBase = map[string]string{
 	"(*regexp.Regexp).ReplaceAllString": "regexp.MustCompile(`[^a-z0-9]`).ReplaceAllString(s, \"\") = stripNonAlnum(s), which satisfies alnumLower",
 	"unicode/utf8.DecodeRuneInString":   "utf8.DecodeRuneInString(s) = (firstRune(s), runeLen(s)) with the axioms of std.spec",
 	"unicode.IsDigit":                   "unicode.IsDigit(r) = isDigitRune(r) (uninterpreted; axioms in std.spec)",
+	"strings.ContainsAny":               "strings.ContainsAny(s, chars) for a short constant ASCII chars = disjunction of strings.Contains(s, c)",
+	"strconv.Itoa":                      "strconv.Itoa(i) = itoa(i), the decimal text %d prints",
 	"strings.TrimLeft":                  "strings.TrimLeft(s, \"0123456789\") = trimDigits(s): on an [a-z0-9]* string the result is empty or starts with a letter (axiom trim-digits)",
 }
 
@@ -271,6 +273,20 @@ func (u *Unit) execExtern(p *Path, x *ssa.Call, name string, args []*Term) {
 		set1(Select(st.Get(u.cx, "written"), args[0]))
 	case "strings.Contains":
 		set1(App("str.contains", SBool, args[0], args[1]))
+	case "strings.ContainsAny":
+		// a constant set of one-byte characters: the disjunction of the single containments
+		if c, ok := constString(x.Call.Args[1]); ok && len(c) <= 8 && isASCII(c) {
+			var ds []*Term
+			for _, ch := range c {
+				ds = append(ds, App("str.contains", SBool, args[0], StrLit(string(ch))))
+			}
+			set1(Or(ds...))
+		} else {
+			u.opaqueCall(p, x, name)
+		}
+	case "strconv.Itoa":
+		u.specFun("itoa", []string{SInt}, SStr)
+		set1(App("itoa", SStr, args[0]))
 	case "strings.HasPrefix":
 		set1(App("str.prefixof", SBool, args[1], args[0]))
 	case "strings.HasSuffix":
@@ -389,4 +405,13 @@ func (u *Unit) sortStrings(p *Path, sl *Term) {
 	// expose the permutation to invariants through ghost names
 	p.ghost("$perm", perm)
 	p.ghost("$perminv", inv)
+}
+
+func isASCII(s string) bool {
+	for i := 0; i < len(s); i++ {
+		if s[i] >= 0x80 {
+			return false
+		}
+	}
+	return true
 }
